@@ -1,9 +1,10 @@
 -- @component comp compExpected
--- @component ced cedExpected
+-- @component cedi cediExpected
+-- @component cedc cedcExpected
 import Chewing.Model.CompEditor
 import Chewing.Driver.Util
 /-!
-`comp …` / `ced …` records: `Composition` and `CompositionEditor` (C04, C05), one step from the
+`comp …` / `cedi …` / `cedc …` records: `Composition` and `CompositionEditor` (C04, C05), one step from the
 implementation's own pre-state.
 
   comp state = <n> <sym>*n <gap>*n <m> <sel>*m        sym = s<code> | c<code point>
@@ -117,38 +118,55 @@ def parseCed (toks : List String) : Option (CompEditor × List String) :=
     some ({ cursor := cur, stack := stack, inner := c }, rest)
   | _ => none
 
-def cedToks (e : CompEditor) : String :=
-  unwords ([toString e.cursor, toString e.stack.length] ++ e.stack.map toString ++ [compToks e.inner])
-
-def outCed : Outcome CompEditor → String
-  | .ok e => "ok " ++ cedToks e
+/-- C04's view of a `CompositionEditor` step: the inner composition -/
+def outCedInner : Outcome CompEditor → String
+  | .ok e => "ok " ++ compToks e.inner
   | .panic s => "panic:" ++ s
   | .outOfFuel => "out-of-fuel"
 
-/-- expected right-hand side of a `ced` record -/
-def cedExpected (fn : String) (args : List String) : Option String := do
+/-- C05's view of a `CompositionEditor` step: cursor, cursor stack, symbols -/
+def outCedCursor : Outcome CompEditor → String
+  | .ok e => "ok " ++ unwords ([toString e.cursor, toString e.stack.length] ++ e.stack.map toString
+      ++ [toString e.symbols.length] ++ e.symbols.map symTok)
+  | .panic s => "panic:" ++ s
+  | .outOfFuel => "out-of-fuel"
+
+def parseCedOp (fn : String) (rest : List String) : Option CedOp :=
+  match fn, rest with
+  | "push_cursor", [] => some .pushCursor
+  | "pop_cursor", [] => some .popCursor
+  | "clamp_cursor", [] => some .clampCursor
+  | "move_cursor", [n] => n.toNat?.map .moveCursor
+  | "clear", [] => some .clear
+  | "remove_front", [n] => n.toNat?.map .removeFront
+  | "remove_after_cursor", [] => some .removeAfterCursor
+  | "remove_before_cursor", [] => some .removeBeforeCursor
+  | "move_cursor_to_end", [] => some .moveToEnd
+  | "move_cursor_to_beginning", [] => some .moveToBeginning
+  | "move_cursor_left", [] => some .moveLeft
+  | "move_cursor_right", [] => some .moveRight
+  | "insert", [s] => (parseSym s).map .insert
+  | "insert_glue", [] => some .insertGlue
+  | "insert_break", [] => some .insertBreak
+  | "replace", [s] => (parseSym s).map .replace
+  | "select", [s] => (parseSel s).map .select
+  | _, _ => none
+
+/-- expected right-hand side of a `cedi` record (pre-state, method ⇒ inner composition) -/
+def cediExpected (fn : String) (args : List String) : Option String := do
+  let (e, rest) ← parseCed args
+  let op ← parseCedOp fn rest
+  some (outCedInner (e.apply op))
+
+/-- expected right-hand side of a `cedc` record (pre-state, method ⇒ cursor, stack, symbols) -/
+def cedcExpected (fn : String) (args : List String) : Option String := do
   let (e, rest) ← parseCed args
   match fn, rest with
-  | "push_cursor", [] => some (outCed (e.apply .pushCursor))
-  | "pop_cursor", [] => some (outCed (e.apply .popCursor))
-  | "clamp_cursor", [] => some (outCed (e.apply .clampCursor))
-  | "move_cursor", [n] => some (outCed (e.apply (.moveCursor (← n.toNat?))))
-  | "clear", [] => some (outCed (e.apply .clear))
-  | "remove_front", [n] => some (outCed (e.apply (.removeFront (← n.toNat?))))
-  | "remove_after_cursor", [] => some (outCed (e.apply .removeAfterCursor))
-  | "remove_before_cursor", [] => some (outCed (e.apply .removeBeforeCursor))
-  | "move_cursor_to_end", [] => some (outCed (e.apply .moveToEnd))
-  | "move_cursor_to_beginning", [] => some (outCed (e.apply .moveToBeginning))
-  | "move_cursor_left", [] => some (outCed (e.apply .moveLeft))
-  | "move_cursor_right", [] => some (outCed (e.apply .moveRight))
-  | "insert", [s] => some (outCed (e.apply (.insert (← parseSym s))))
-  | "insert_glue", [] => some (outCed (e.apply .insertGlue))
-  | "insert_break", [] => some (outCed (e.apply .insertBreak))
-  | "replace", [s] => some (outCed (e.apply (.replace (← parseSym s))))
-  | "select", [s] => some (outCed (e.apply (.select (← parseSel s))))
   | "get", [] =>
     some (unwords [toString e.len, b01 e.isEmpty, b01 e.isBob, b01 e.isEob, optTok symTok e.symbol?,
       optTok symTok e.symbolForSelect])
-  | _, _ => none
+  | _, _ =>
+    let op ← parseCedOp fn rest
+    some (outCedCursor (e.apply op))
 
 end Chewing.Driver
